@@ -4,6 +4,10 @@ CHECKS = {
    text="All path arithmetic of move/rotate/setters/constructor is proved against an independent specification for all path lengths, input lengths and start values: the real code objects are symbolically executed over index-map arrays of symbolic length and every postcondition/safety/exceptional obligation is discharged by z3. A native small-scope sweep of the same contract is a labelled bounded stand-in.",
    note="Assumes: check_format_input_vector's contract (verified separately in C17), scipy Rotation group laws and from_* constructors, NumPy pad/slice semantics as modelled (cross-checked natively), floats as reals.",
    technique="contract-based deductive verification: VC generation by symbolic execution of the real code objects + z3/cvc5"),
+ "C10": dict(level="proof",
+   text="For a depth-3 tree of real (re-bound) BaseGeo objects with symbolic common path length, every node's new pose after move / rotate (all anchor kinds, start values) / position= / orientation= is proved equal to one and the same rigid transformation of its old pose at the C09 index map (QF UF+LIA obligations on the real code), and the relative-pose invariance then follows from algebraic lemmas decided by a canonical normal form; frame obligations show that operating on a child leaves parent and siblings untouched. Arbitrary depth/arity is an induction stated as a meta-argument.",
+   note="Assumes scipy Rotation group laws, check_format_input_vector's contract, equal path lengths in the tree (the property's own precondition); the field-invariance corollary rests on C03/C04.",
+   technique="contract-based deductive verification: symbolic execution of the real code objects + z3; lemmas by normal form (free group x linear forms)"),
 }
 _NB = "stand-in / contracts not built yet in this session (see DESIGN.md); not claimed"
 NA = {
